@@ -106,7 +106,15 @@ pub fn gen_rops(rng: &mut Rng, e: En, kind: RdKind, image: &[u8], zero_ext: bool
                 }
             },
             12..=14 => {
-                let n = if rng.chance(1, 4) { rng.usize_range(0, 3 * wb + 5) } else { pick_n(rng, 64) };
+                let n = if rng.chance(1, 4) {
+                    if rng.chance(1, 6) {
+                        rng.usize_range(0, 80_000)
+                    } else {
+                        rng.usize_range(0, 3 * wb + 5)
+                    }
+                } else {
+                    pick_n(rng, 64)
+                };
                 let n = n.min(room);
                 pos += n;
                 ROp::Skip(n)
@@ -190,11 +198,30 @@ impl Family for C02 {
             _ => rng.usize_range(1, 64),
         };
         let nbytes = (nwords * wbytes).min(256);
-        let image = gen_image(rng, pattern, nbytes);
-        let nops = match rng.below(3) {
+        let mut image = gen_image(rng, pattern, nbytes);
+        let mut nops = match rng.below(3) {
             0 => rng.usize_range(1, 6),
             _ => rng.usize_range(4, 48),
         };
+        // scale: one run in 300 reads an image of ~10 KiB containing a zero run longer than
+        // 2^16 bits; one in 300 performs several hundred operations
+        let scale = rng.below(300);
+        if scale == 0 {
+            let hl = wbytes * rng.usize_range(0, 3);
+            let head = gen_image(rng, Pattern::Random, hl);
+            let run = rng.usize_range(8200, 9000) / wbytes * wbytes;
+            let tl = wbytes * rng.usize_range(2, 12);
+            let tail = gen_image(rng, Pattern::Random, tl);
+            image = head;
+            image.extend(std::iter::repeat(0u8).take(run));
+            image.extend(tail);
+            // make sure a one follows the run
+            let l = image.len();
+            image[l - 1] |= 0x81;
+        } else if scale == 1 {
+            nops = rng.usize_range(300, 800);
+            image = gen_image(rng, pattern, (wbytes * 64).max(2048));
+        }
         let rate = if rng.chance(1, 2) { rng.below(31) } else { 0 };
         let backend = gen_rd_backend(rng, index / 50, rate, nops * 6 + 8);
         let ops = gen_rops(rng, e, kind, &image, backend.zero_extended(), backend.can_clone(), nops);
